@@ -44,7 +44,7 @@ func checkC11(c *Check) {
 		var flag types.Object
 		sig := fi.Obj.Type().(*types.Signature)
 		for i := 0; i < sig.Params().Len(); i++ {
-			if p := sig.Params().At(i); p.Name() == "declarationOnly" {
+			if p := sig.Params().At(i); nameIs(p, "declarationOnly") {
 				flag = p
 			}
 		}
@@ -117,7 +117,7 @@ func checkC11(c *Check) {
 				return true
 			}
 			fn := Callee(info, call)
-			if fn == nil || fn.Name() != "NewFunc" {
+			if fn == nil || !nameIs(fn, "NewFunc") {
 				return true
 			}
 			n++
@@ -256,7 +256,7 @@ func checkC11(c *Check) {
 			if fn == nil {
 				return true
 			}
-			switch fn.Name() {
+			switch canonName(fn) {
 			case "newCompiler":
 				for _, a := range call.Args {
 					a1 = append(a1, types.ExprString(a))
